@@ -486,7 +486,7 @@ def refines_build(seed, tier):
     g = Gen(seed)
     r = g.r
     names = ["x", "y", "z", "w"][: r.randint(1, 4)]
-    fam = r.choice(["self", "sublist", "weakening", "farkas", "duplicate", "separated", "unrelated", "empty_left", "empty_right", "equal_bound", "unbounded", "variable_free", "degenerate_left"])
+    fam = r.choice(["self", "sublist", "weakening", "farkas", "duplicate", "separated", "unrelated", "empty_left", "empty_right", "equal_bound", "unbounded", "variable_free", "degenerate_left", "repeated_row"])
     base = [g.term(names, 1, 3) for _ in range(r.randint(1, 4))]
     if fam in ("self", "sublist", "weakening", "farkas", "duplicate", "equal_bound") and r.random() < 0.7:
         for v in names:
@@ -526,6 +526,18 @@ def refines_build(seed, tier):
     elif fam == "unbounded":
         left = [g.term(names, 1, 2)]
         right, expect = [g.term(names, 1, 2)], None
+    elif fam == "repeated_row":
+        # the right side bounds the same coefficient row twice, the looser bound first (what `spec1 | spec2` produces); the left
+        # side lies between the two bounds, or meets both; other rows in between
+        t = base[0]
+        c = t.constant
+        loose, tight = g.PT(dict(t.variables), c + r.choice([1, 2, 0.5])), g.PT(dict(t.variables), c - r.choice([1, 2, 0.5]))
+        mid = [tt.copy() for tt in base[1:2]]
+        right = ([loose] + mid + [tight]) if r.random() < 0.7 else ([tight] + mid + [loose])
+        if r.random() < 0.3:
+            right, expect = [loose] + mid + [g.PT(dict(t.variables), c)], True
+        else:
+            expect = None
     elif fam == "degenerate_left":
         # a feasible left side without interior (see lib.degenerate_system) against a constraint its point violates by 1,
         # or against itself
@@ -800,7 +812,7 @@ RULES = {
     "compose_case": "random pairs of polyhedral contracts over the wirings %s, vars_to_keep subsets of the connected outputs, simplify on/off, tactics_order from %s; soundness / interface / forgotten guarantees decided by z3 over the box with the property's tolerances; non-trivial = compose returned a contract with at least one term" % (WIRINGS, ORDERS),
     "quotient_case": "dividends built as C1 composed with a hidden partner (3/4) or random (1/4), additional_inputs subsets, simplify on/off, tactic orders; quotient soundness decided by z3; non-trivial = quotient returned with at least one term",
     "elim_case": "1-4 terms over 2-6 variables, 1-3 eliminated variables, contexts: random / chains / two-sided bounds / wrong-direction bounds; refine or relax, simplify on/off, singleton and mixed tactic orders; implication decided by z3; non-trivial = result differs from the input list",
-    "refines_case": "families self, sublist, weakening, positive combinations, duplicates, equal bound, separated, unrelated, unbounded, empty left, empty right, constraints without variables (one or two, failing and holding ones in either order) over 1-4 variables with small-integer/dyadic data; exact containment and beyond-tolerance violation both decided by z3",
+    "refines_case": "families self, sublist, weakening, positive combinations, duplicates, the same row bounded twice on the right (looser bound first), equal bound, separated, unrelated, unbounded, empty left, empty right, constraints without variables (one or two, failing and holding ones in either order) over 1-4 variables with small-integer/dyadic data; exact containment and beyond-tolerance violation both decided by z3",
     "simplify_case": "up to 6 terms over up to 5 variables with planted duplicates, scalings, positive combinations, context-implied terms, terms shared verbatim with the context, nearly tight terms, infeasible systems, constraints without variables in the list or the context; selection, equivalence and irredundancy-with-margin decided by z3",
     "merge_case": "pairs with shared inputs / shared outputs / disjoint interfaces, with duplicated guarantees across the two, an assumption stated twice in one operand; exactness decided by z3 in both directions, both call orders",
 }
